@@ -167,42 +167,48 @@ func keyOfDep(d dep) *node.Key {
 // validRef decides from the statement whether blk may be accepted by a node in state si whose clock
 // shows nowMs (milliseconds).
 func validRef(blk *types.Block, nowMs int64, si *stInfo) (bool, string) {
+	ok, why, _ := validRefH(blk, nowMs, si)
+	return ok, why
+}
+
+// validRefH also hands out the honest re-execution (nil when the verdict fell before it).
+func validRefH(blk *types.Block, nowMs int64, si *stInfo) (bool, string, *types.Block) {
 	parent := tr.byHash[blk.ParentHash()]
 	if parent == nil || !si.delivered[parent.Hash()] && parent.Height() > 0 {
-		return false, "parent unknown"
+		return false, "parent unknown", nil
 	}
 	if !si.known[parent.Hash()] {
-		return false, "parent pruned (not on the stable block's chain)"
+		return false, "parent pruned (not on the stable block's chain)", nil
 	}
 	if si.delivered[blk.Hash()] || blk.Hash() == tr.blocks["g"].Hash() {
-		return false, "block already known"
+		return false, "block already known", nil
 	}
 	if blk.Height() != parent.Height()+1 {
-		return false, "height"
+		return false, "height", nil
 	}
 	if blk.Time() < parent.Time() {
-		return false, "time before parent"
+		return false, "time before parent", nil
 	}
 	if int64(blk.Time())*1000 > nowMs+1000 {
-		return false, "time in the future"
+		return false, "time in the future", nil
 	}
 	if len(blk.Extra()) > 256 {
-		return false, "extra too long"
+		return false, "extra too long", nil
 	}
 	turn, ok := refInTurn(tr, parent, blk.Time())
 	if !ok {
-		return false, "no deputy in turn"
+		return false, "no deputy in turn", nil
 	}
 	id, err := blk.SignerNodeID()
 	if err != nil || !bytes.Equal(id, turn.NodeID) {
-		return false, "not signed by the deputy in turn"
+		return false, "not signed by the deputy in turn", nil
 	}
 	if blk.MinerAddress() != turn.Addr {
-		return false, "miner address is not the signer's"
+		return false, "miner address is not the signer's", nil
 	}
 	miner := keyOfDep(turn)
 	if miner == nil || !bytes.Equal(miner.NodeID, turn.NodeID) {
-		return false, "deputy in turn has a node id nobody holds"
+		return false, "deputy in turn has a node id nobody holds", nil
 	}
 	// transactions: window, replay (ancestor path and inside the block)
 	seen := map[common.Hash]bool{}
@@ -230,17 +236,17 @@ func validRef(blk *types.Block, nowMs int64, si *stInfo) (bool, string) {
 	}
 	for _, tx := range all {
 		if seen[tx.Hash()] {
-			return false, "replayed tx"
+			return false, "replayed tx", nil
 		}
 		seen[tx.Hash()] = true
 		if tx.Expiration() < uint64(blk.Time()) || tx.Expiration()-uint64(blk.Time()) > 1800 {
-			return false, "tx outside its window"
+			return false, "tx outside its window", nil
 		}
 		if tx.ChainID() != node.ChainID {
-			return false, "tx of another chain"
+			return false, "tx of another chain", nil
 		}
 		if why := malformed(tx); why != "" {
-			return false, "malformed tx: " + why
+			return false, "malformed tx: " + why, nil
 		}
 	}
 	for _, tx := range blk.Txs {
@@ -248,10 +254,10 @@ func validRef(blk *types.Block, nowMs int64, si *stInfo) (bool, string) {
 			if box, err := types.GetBox(tx.Data()); err == nil {
 				for _, s := range box.SubTxList {
 					if s.Type() == params.BoxTx {
-						return false, "malformed tx: box inside a box"
+						return false, "malformed tx: box inside a box", nil
 					}
 					if s.Expiration() < tx.Expiration() {
-						return false, "malformed tx: a boxed transaction expires before its box"
+						return false, "malformed tx: a boxed transaction expires before its box", nil
 					}
 				}
 			}
@@ -261,7 +267,7 @@ func validRef(blk *types.Block, nowMs int64, si *stInfo) (bool, string) {
 	if isSnapshotHeight(blk.Height()) {
 		want := refTop(parent.Hash())
 		if len(blk.DeputyNodes) != len(want) {
-			return false, fmt.Sprintf("deputy list has %d entries, the top candidates at the parent are %d", len(blk.DeputyNodes), len(want))
+			return false, fmt.Sprintf("deputy list has %d entries, the top candidates at the parent are %d", len(blk.DeputyNodes), len(want)), nil
 		}
 		wl := make(types.DeputyNodes, len(want))
 		for i, w := range want {
@@ -269,21 +275,21 @@ func validRef(blk *types.Block, nowMs int64, si *stInfo) (bool, string) {
 			wl[i] = &types.DeputyNode{MinerAddress: w.Addr, NodeID: w.NodeID, Rank: uint32(i), Votes: w.Votes}
 			switch {
 			case g.MinerAddress != w.Addr:
-				return false, fmt.Sprintf("deputy list entry %d is not the candidate ranked %d at the parent", i, i)
+				return false, fmt.Sprintf("deputy list entry %d is not the candidate ranked %d at the parent", i, i), nil
 			case !bytes.Equal(g.NodeID, w.NodeID):
-				return false, fmt.Sprintf("deputy list entry %d has another node id than the candidate's profile", i)
+				return false, fmt.Sprintf("deputy list entry %d has another node id than the candidate's profile", i), nil
 			case g.Rank != uint32(i):
-				return false, fmt.Sprintf("deputy list entry %d has rank %d", i, g.Rank)
+				return false, fmt.Sprintf("deputy list entry %d has rank %d", i, g.Rank), nil
 			case g.Votes == nil || g.Votes.Cmp(w.Votes) != 0:
-				return false, fmt.Sprintf("deputy list entry %d carries other votes than the candidate has at the parent", i)
+				return false, fmt.Sprintf("deputy list entry %d carries other votes than the candidate has at the parent", i), nil
 			}
 		}
 		root := wl.MerkleRootSha()
 		if !bytes.Equal(blk.DeputyRoot(), root[:]) {
-			return false, "deputy root is not the root of the reference list"
+			return false, "deputy root is not the root of the reference list", nil
 		}
 	} else if len(blk.DeputyNodes) > 0 || len(blk.DeputyRoot()) > 0 {
-		return false, "deputy list / deputy root on a block that is not a snapshot block"
+		return false, "deputy list / deputy root on a block that is not a snapshot block", nil
 	}
 	// honest re-execution with the same miner choices must reproduce the block
 	txs := make(types.Transactions, len(blk.Txs))
@@ -294,7 +300,7 @@ func validRef(blk *types.Block, nowMs int64, si *stInfo) (bool, string) {
 	}
 	hon, inv, err := tr.f.Make(node.BlockSpec{Parent: parent, Miner: miner, Time: blk.Time(), Txs: txs, Extra: blk.Extra(), NoSave: true, GasLimit: blk.Header.GasLimit, SetGasLimit: true})
 	if err != nil || len(inv) > 0 || len(hon.Txs) != len(txs) {
-		return false, "honest execution does not package these transactions"
+		return false, "honest execution does not package these transactions", nil
 	}
 	if isSnapshotHeight(blk.Height()) {
 		// the deputy root is a root the header commits to, but the reference above — not the
@@ -302,17 +308,17 @@ func validRef(blk *types.Block, nowMs int64, si *stInfo) (bool, string) {
 		hh := hon.Header.Copy()
 		hh.DeputyRoot = blk.Header.DeputyRoot
 		if hh.Hash() != blk.Hash() {
-			return false, "differs from honest execution (roots / gas figures)"
+			return false, "differs from honest execution (roots / gas figures)", nil
 		}
 	} else if hon.Hash() != blk.Hash() {
-		return false, "differs from honest execution (roots / gas figures)"
+		return false, "differs from honest execution (roots / gas figures)", nil
 	}
 	for i := range hon.Txs {
 		if hon.Txs[i].GasUsed() != blk.Txs[i].GasUsed() {
-			return false, "tx gasUsed differs from honest execution"
+			return false, "tx gasUsed differs from honest execution", nil
 		}
 	}
-	return true, ""
+	return true, "", hon
 }
 
 // malformed: the field limits of the protocol a packaged transaction has to respect.
@@ -340,4 +346,40 @@ func malformed(tx *types.Transaction) string {
 		return "negative amount"
 	}
 	return ""
+}
+
+// asSent: oracle 3 (a valid block is not refused) is only applied to a block that looks the way an
+// honest miner sends it — the statement leaves open what a node does with a valid header whose
+// un-hashed companions are unusual: body transactions and change logs are those of the honest
+// execution, body confirms (if any) are signatures of distinct deputies of the term other than the
+// miner, and the miner's signature is in its canonical (low-s) encoding.
+func asSent(blk, hon *types.Block) (bool, string) {
+	if hon == nil {
+		return false, "no honest execution"
+	}
+	if len(blk.ChangeLogs) != len(hon.ChangeLogs) || blk.ChangeLogs.MerkleRootSha() != hon.ChangeLogs.MerkleRootSha() {
+		return false, "body change logs are not those of the execution"
+	}
+	if len(blk.Header.SignData) == 65 {
+		half, _ := new(big.Int).SetString("7FFFFFFFFFFFFFFFFFFFFFFFFFFFFFFF5D576E7357A4501DDFE92F46681B20A0", 16)
+		if new(big.Int).SetBytes(blk.Header.SignData[32:64]).Cmp(half) > 0 {
+			return false, "miner signature in its high-s encoding"
+		}
+	}
+	deps := refDeputies(tr, blk.Height(), tr.byHash[blk.ParentHash()])
+	seen := map[string]bool{}
+	for _, sd := range blk.Confirms {
+		id, err := sd.RecoverNodeID(blk.Hash())
+		okd := false
+		for _, d := range deps {
+			if err == nil && bytes.Equal(d.NodeID, id) && d.Addr != blk.MinerAddress() {
+				okd = true
+			}
+		}
+		if !okd || seen[string(id)] {
+			return false, "body confirms that are not one signature each of other deputies"
+		}
+		seen[string(id)] = true
+	}
+	return true, ""
 }
